@@ -60,6 +60,22 @@ CLAIMED.update({
         ref='6 C09'),
 })
 
+CLAIMED.update({
+    'C10': dict(
+        text='db/dh/dw/dd, pack in all 20 format/byte-order combinations and the five sequence directives are assembled with symbolic values (beyond both ends of every width): accepted iff the value fits, bytes equal the little/big-endian two\'s complement of the documented width, and the size used for label layout equals the bytes emitted. include_bytes runs over a virtual file system with symbolic existence bits in source / -i / working directory and a symbolic working directory: the bytes are those of the file the documented search finds. string (escapes, UTF-8) is bug-hunting only (CrossHair cannot confirm through the C codecs) and is not part of the claim.',
+        note='Trusted: z3, stubs (struct.pack contract, virtual file system). The string sub-property is NOT claimed (listed in evidence.outside_claim).',
+        ref='6 C10'),
+    'C11': dict(
+        text='For every operand position of all 93 mnemonics the program written with a constant / register alias and the program written with the literal have the same outcome for all values (off/on); every documented operator is evaluated through the real resolve_constants on a symbolic operand and compared with a 160-bit reference; constants in db..dd and inside %hi/%lo/%position likewise. The 94 printable-ASCII character literals are a finite table compared concretely (plus CrossHair search).',
+        note='Trusted: z3, stubs; numeral spellings and operator precedence are CPython\'s (outside the claim). // and % are decided for |A| < 2^23.',
+        ref='6 C11'),
+    'C13': dict(
+        text='CrossHair conditions on the real lex_tokens (comments with symbolic text, indentation, separator runs, per line kind) and on the whole assemble() of an 11-line program (blank lines, whole-line comments, indentation, trailing comments with symbolic counts at every position), each with a reachability twin; symx product for imm(reg) vs reg, imm on all 11 base+offset mnemonics in both modes; register spellings as a finite table. Weakest claim of the set: see evidence.outside_claim.',
+        note='Trusted: CrossHair 0.0.110 "Confirmed over all paths", z3, stubs. Bound: string lengths, counts and the single program template in evidence.',
+        ref='6 C13',
+        technique='CrossHair symbolic execution of the real lexer/assembler with PEP-316 contracts (per-condition confirmation), plus symx/z3 product queries for operand syntax'),
+})
+
 NOT_YET = {}
 
 
